@@ -7,7 +7,7 @@
 
    Main results
      tz_string_form                 sign and exactly four digits when |off| < 100 h
-     sign_regex_shape               the generated pattern, decomposed (breaks if the Go literal changes)
+     sign_regex_shape               the reference pattern re_signRegexp, decomposed (Bridge.v ties it to the Go literal)
      sign_regex_spec                exactly which lines pass the gate
      sign_regex_accepts             every generated line passes it
      sign_roundtrip                 read_sign (sign_string n e t off) = Some (mkSign n e t off)
